@@ -1,4 +1,153 @@
-import DesperModel.World
+import DesperProofs.Lemmas.WorldLife
+/-
+  C02 — Component lifecycle callbacks fire exactly once per attach/detach.
+
+  Model: DesperModel/World.lean.  `attachEvents` is the event handling that follows every attach
+  (create_entity, add_component, add_processor), `removeComponent` the one detach path
+  (explicit removal, replacement, immediate and deferred deletion, clear all go through it),
+  `lifecycle` the replicated "direct call if enabled, relay through on_single_dispatch if
+  disabled" code, `releaseQ` the release of postponed events when dispatching is re-enabled.
+
+  Known findings carried by explicit guards (see /verif/known_findings.jsonl):
+    D23  `clear()` while dispatching is disabled wipes the postponed callbacks;
+    D5a  `create_entity(a, b)` with `type(a) is type(b)`: `a` is never attached but gets on_add.
+-/
 open Desper Desper.World
 
-theorem C02_placeholder : (1:Nat) = 1 := rfl
+/-- Attach, dispatching enabled: a handler component that declares `on_add` receives it exactly
+once (one new log entry, carrying its real owner), nothing is postponed, and the component is
+registered as a listener of the world. -/
+theorem C02_attach_enabled (U : Universe) (hn : NoRaise U) (s : St) (c : Obj) (e : Ent) (m : Mapping)
+    (meth : String) (hm : U.mapOf c = some m) (hon : Dict.get? m onAdd = some meth)
+    (hen : s.enabled = true) :
+    (attachEvents U s c (some e)).2 = .ok ∧
+    (attachEvents U s c (some e)).1.log = .life onAdd c meth (some e) :: s.log ∧
+    (attachEvents U s c (some e)).1.queue = s.queue ∧
+    c ∈ (attachEvents U s c (some e)).1.registered := by
+  unfold attachEvents lifecycle
+  simp only [hm, hon]
+  have he : (addHandler s c m).enabled = true := hen
+  simp only [he, if_true]
+  rw [callCb_eq hn]
+  obtain ⟨_, _, c3, c4, _, c6, _⟩ := ctrlRecord_fields U (addHandler s c m) onAdd c (some e)
+  refine ⟨rfl, ?_, ?_, ?_⟩
+  · show _ :: (ctrlRecord U (addHandler s c m) onAdd c (some e)).log = _
+    rw [c3]; rfl
+  · show (ctrlRecord U (addHandler s c m) onAdd c (some e)).queue = _
+    rw [c4]; rfl
+  · show c ∈ (ctrlRecord U (addHandler s c m) onAdd c (some e)).registered
+    rw [c6]; exact (mem_setAdd _ _ _).mpr (.inr rfl)
+
+/-- Attach, dispatching disabled: the callback is postponed rather than lost — exactly one relay
+is appended at the end of the queue, nothing is called now, the component is registered. -/
+theorem C02_attach_disabled (U : Universe) (s : St) (c : Obj) (e : Ent) (m : Mapping) (meth : String)
+    (hm : U.mapOf c = some m) (hon : Dict.get? m onAdd = some meth) (hen : s.enabled = false)
+    (hk : s.known.contains onSingle = true) :
+    (attachEvents U s c (some e)).1.log = s.log ∧
+    (attachEvents U s c (some e)).1.queue = s.queue ++ [.relay onAdd c (some e)] ∧
+    c ∈ (attachEvents U s c (some e)).1.registered := by
+  unfold attachEvents lifecycle
+  simp only [hm, hon]
+  have he : (addHandler s c m).enabled = false := hen
+  have hk' : (addHandler s c m).known.contains onSingle = true := by
+    have : ∀ (l : List (String × String)) (k : List String), k.contains onSingle = true →
+        (l.foldl (fun k p => setAdd k p.1) k).contains onSingle = true := by
+      intro l
+      induction l with
+      | nil => intro k h; exact h
+      | cons p l ih =>
+        intro k h
+        apply ih
+        have : onSingle ∈ k := by simpa using h
+        have : onSingle ∈ setAdd k p.1 := (mem_setAdd _ _ _).mpr (.inl this)
+        simpa using this
+    exact this m s.known hk
+  simp only [he, Bool.false_eq_true, if_false, hk', if_true]
+  exact ⟨rfl, rfl, (mem_setAdd _ _ _).mpr (.inr rfl)⟩
+
+/-- A component that is not an event handler, or declares no `on_add`, is attached silently. -/
+theorem C02_attach_silent (U : Universe) (s : St) (c : Obj) (e : Ent)
+    (h : U.mapOf c = none ∨ ∃ m, U.mapOf c = some m ∧ Dict.get? m onAdd = none) :
+    (attachEvents U s c (some e)).1.log = s.log ∧ (attachEvents U s c (some e)).1.queue = s.queue := by
+  unfold attachEvents lifecycle
+  rcases h with h | ⟨m, h1, h2⟩
+  · simp [h]
+  · simp only [h1, h2]; exact ⟨rfl, rfl⟩
+
+/-- Detach (every way of detaching goes through `remove_component`), dispatching enabled: the
+component stops being attached, receives `on_remove` exactly once with its real owner, and is
+not a listener of the world any more. -/
+theorem C02_detach_enabled (U : Universe) (hn : NoRaise U) (s : St) (e : Ent) (t : Ty) (c : Obj)
+    (m : Mapping) (meth : String) (hc : Dict.get? (row s e) t = some c)
+    (hm : U.mapOf c = some m) (hon : Dict.get? m onRemove = some meth) (hen : s.enabled = true) :
+    (removeComponent U s e t).2.1 = .ok ∧ (removeComponent U s e t).2.2 = some c ∧
+    Dict.get? (row (removeComponent U s e t).1 e) t = none ∧
+    (removeComponent U s e t).1.log = .life onRemove c meth (some e) :: s.log ∧
+    (removeComponent U s e t).1.queue = s.queue ∧
+    c ∉ (removeComponent U s e t).1.registered := by
+  have hrow : Dict.get? (row (removeComponent U s e t).1 e) t = none := by
+    rw [row_of_ents (removeComponent_exact hn s e t c hc).2.ents, row_detach]; simp
+  have hdq : (detach s e t).queue = s.queue := by unfold detach; simp only; split <;> rfl
+  rw [removeComponent_enabled_eq hn s e t c m meth hc hm hon hen] at hrow ⊢
+  refine ⟨rfl, rfl, hrow, ?_, ?_, ?_⟩
+  · show _ :: (detach s e t).log = _
+    rw [detach_log]
+  · exact hdq
+  · simp [removeHandler]
+
+/-- Postponed callbacks are delivered in operation order, each exactly once, when dispatching is
+re-enabled: with a queue of relays whose handlers declare the relayed event, enabling logs one
+lifecycle entry per relay, in queue order, and empties the queue. -/
+theorem C02_postponed_in_order (U : Universe) (hn : NoRaise U) (s : St)
+    (hk : s.known.contains onSingle = true) (hs : s.selfReg = true)
+    (rel : List (String × Obj × Option Ent × String))
+    (hq : s.queue = rel.map (fun r => QEv.relay r.1 r.2.1 r.2.2.1))
+    (hmeth : ∀ r ∈ rel, (U.mapOf r.2.1).bind (fun m => Dict.get? m r.1) = some r.2.2.2) :
+    (setEnabled U s true).2 = .ok ∧ (setEnabled U s true).1.queue = [] ∧
+    (setEnabled U s true).1.log =
+      (rel.map (fun r => Entry.life r.1 r.2.1 r.2.2.2 r.2.2.1)).reverse ++ s.log := by
+  have key := releaseQ_relays hn rel hmeth { s with enabled := true } hk hs
+  have hl : ({ s with enabled := true } : St).log = s.log := rfl
+  rw [hl] at key
+  have heq : setEnabled U s true =
+      releaseQ U { s with enabled := true } (rel.map (fun r => QEv.relay r.1 r.2.1 r.2.2.1)) := by
+    unfold setEnabled
+    simp only [if_true]
+    show releaseQ U { s with enabled := true } s.queue = _
+    rw [hq]
+  rw [heq]; exact key
+
+/-- After `clear()` the world keeps listening to itself, so callbacks postponed on the cleared
+and reused world are relayed again (they used to be dropped silently). -/
+theorem C02_clear_keeps_relay (U : Universe) (s : St) (h : (clear U s).2 = .ok) :
+    (clear U s).1.known.contains onSingle = true ∧ (clear U s).1.selfReg = true ∧
+    (clear U s).1.enabled = true ∧ (clear U s).1.registered = [] := by
+  obtain ⟨h1, h2, h3, h4, _⟩ := clear_dispatcher U s h
+  exact ⟨by rw [h1]; decide, h2, h3, h4⟩
+
+/-! ### the guards are needed: known findings, as checked witnesses -/
+
+private def exU : Universe :=
+  { classes := [{ bases := [] }], objTy := fun _ => some 0, raises := fun _ _ _ => none,
+    mapping := fun _ => some [("on_add", "on_add"), ("on_remove", "on_remove")] }
+
+/-- D23 (known finding): `clear()` while dispatching is disabled loses the postponed `on_add`:
+it is in the queue before the clear and neither delivered nor queued afterwards. -/
+theorem C02_D23_clear_while_disabled_loses :
+    let s := run exU {} [.enable false, .create none [0]]
+    s.queue = [.relay "on_add" 0 (some 1)] ∧
+    (run exU s [.clear, .enable true]).log = [] ∧ (run exU s [.clear, .enable true]).queue = [] := by
+  decide
+
+/-- D5a (known finding): `create_entity(a, b)` with two components of one type registers and
+notifies `a` although only `b` ends up attached. -/
+theorem C02_D5a_duplicate_type_in_create :
+    let s := run exU {} [.create none [0, 1]]
+    getComponents s 1 = [1] ∧ 0 ∈ s.registered ∧ .life "on_add" 0 "on_add" (some 1) ∈ s.log := by
+  decide
+
+/-! non-vacuity of the theorems above -/
+example : exU.mapOf 0 = some [("on_add", "on_add"), ("on_remove", "on_remove")] ∧ NoRaise exU ∧
+    Dict.get? (row (run exU {} [.create none [0]]) 1) 0 = some 0 ∧
+    (run exU {} [.create none [0]]).enabled = true := by
+  refine ⟨rfl, fun _ _ _ => rfl, by decide, by decide⟩
